@@ -1,11 +1,14 @@
 (* C07 — a crash at any point leaves a usable mirror; the next good run converges.
    A crash state is a prefix state (every model operation is one atomic
    filesystem mutation), so the visibility half is the every-prefix theorem of
-   C03; the stale lock half is C13.  Convergence of the rerun is validated by the
+   C03; the stale lock half is C13.  For the rerun: [rerun_accepts_no_truncated_file]
+   — from ANY filesystem a crash may have left, every file a stage reports
+   obtained is complete with its declared size in the stage's final state.
+   That the whole tree then equals the uninterrupted mirror is validated by the
    crash-injection correspondence, not proved (see DESIGN.md). *)
 From Coq Require Import List Arith Bool.
-From AM.Model Require Import Base Publish Lock.
-From AM.Lemmas Require Import PublishLemmas LockLemmas.
+From AM.Model Require Import Base Publish Lock Download Stage.
+From AM.Lemmas Require Import PublishLemmas LockLemmas DownloadLemmas StageRunLemmas.
 Import ListNotations.
 
 Theorem crash_state_visible :
@@ -35,3 +38,19 @@ Theorem stale_lock_does_not_block :
   snd (step false s2 q AFlock) = OOk.
 Proof. exact stale_lock_harmless_lemma. Qed.
 Print Assumptions stale_lock_does_not_block.
+
+(* The rerun after a crash starts from an arbitrary filesystem [fs]: truncated
+   targets, half-linked aliases, files of the previous version.  Whatever is
+   there, for every queue of files with pairwise disjoint target paths, a file
+   the stage reports obtained (pre-checked, downloaded or unmodified) is, in the
+   stage's FINAL filesystem, present on every path of the obtained variant with
+   the declared size: no truncated file is accepted as complete, and later
+   transfers do not disturb earlier ones. *)
+Theorem rerun_accepts_no_truncated_file :
+  forall swallow u files fs,
+  disjoint_files files ->
+  (forall f v, In f files -> In v (variants f) -> In (vsource v) (vpaths v)) ->
+  let '(rs, fs') := run_stage swallow files u fs in
+  forall f r, In (f, r) (combine files rs) -> complete_in f r fs'.
+Proof. exact stage_sound. Qed.
+Print Assumptions rerun_accepts_no_truncated_file.
